@@ -59,8 +59,13 @@ int64_t carquet_rle_decode_all(const uint8_t *input, size_t input_size, int bit_
  * (ghost, arbitrary) is recorded. ---- */
 #include "core/buffer.h"
 size_t cqv_g;                     /* ghost byte index for memset/advance */
-int cqv_watch;                    /* which call (0-based, over all buffer calls) is recorded */
-int cqv_calls;                    /* number of buffer calls so far */
+int64_t cqv_watch;                /* which call (0-based, over all buffer calls) is recorded */
+int64_t cqv_calls;                /* number of buffer calls so far */
+/* per-element recording (byte-array encoder): the overlay sets cqv_cur = i at the top of the loop body; calls made
+ * while cqv_cur == cqv_elem (ghost, arbitrary) are recorded with their sequence number */
+int64_t cqv_cur = -1, cqv_elem = -1;
+int cqv_el_has_u32, cqv_el_has_data; uint32_t cqv_el_u32; const void *cqv_el_data; size_t cqv_el_size;
+int64_t cqv_el_u32_seq, cqv_el_data_seq;
 int cqv_rec_kind;                 /* 0 none, 1 append, 2 append_u32_le, 3 advance */
 const void *cqv_rec_data; size_t cqv_rec_size; uint32_t cqv_rec_u32; carquet_buffer_t *cqv_rec_buf;
 carquet_status_t cqv_rec_ret; uint8_t *cqv_rec_ptr;
@@ -68,8 +73,12 @@ size_t cqv_total;                 /* total bytes appended by successful calls (w
 
 carquet_status_t carquet_buffer_append(carquet_buffer_t *buf, const void *data, size_t size) {
   __CPROVER_precondition(buf != NULL, "buffer_append: buf != NULL");
-  __CPROVER_precondition(size == 0 || __CPROVER_r_ok(data, size), "buffer_append: data[0,size) readable");
+  /* element mode: only the watched element's bytes are known to be readable (its validity is the contract's requires
+   * for the ghost element; the ghost is arbitrary, so this covers every element) */
+  if (cqv_elem < 0 || cqv_cur == cqv_elem)
+    __CPROVER_precondition(size == 0 || __CPROVER_r_ok(data, size), "buffer_append: data[0,size) readable");
   carquet_status_t r = (size == 0 || nondet_bool()) ? CARQUET_OK : CARQUET_ERROR_OUT_OF_MEMORY;
+  if (cqv_elem >= 0 && cqv_cur == cqv_elem) { cqv_el_has_data++; cqv_el_data = data; cqv_el_size = size; cqv_el_data_seq = cqv_calls; }
   if (cqv_calls == cqv_watch) { cqv_rec_kind = 1; cqv_rec_data = data; cqv_rec_size = size; cqv_rec_buf = buf; cqv_rec_ret = r; }
   cqv_calls++;
   if (r == CARQUET_OK) cqv_total += size;
@@ -78,6 +87,7 @@ carquet_status_t carquet_buffer_append(carquet_buffer_t *buf, const void *data, 
 carquet_status_t carquet_buffer_append_u32_le(carquet_buffer_t *buf, uint32_t value) {
   __CPROVER_precondition(buf != NULL, "buffer_append_u32_le: buf != NULL");
   carquet_status_t r = nondet_bool() ? CARQUET_OK : CARQUET_ERROR_OUT_OF_MEMORY;
+  if (cqv_elem >= 0 && cqv_cur == cqv_elem) { cqv_el_has_u32++; cqv_el_u32 = value; cqv_el_u32_seq = cqv_calls; }
   if (cqv_calls == cqv_watch) { cqv_rec_kind = 2; cqv_rec_u32 = value; cqv_rec_size = 4; cqv_rec_buf = buf; cqv_rec_ret = r; }
   cqv_calls++;
   if (r == CARQUET_OK) cqv_total += 4;
